@@ -51,6 +51,7 @@ type vCache struct {
 	getRC       io.ReadCloser
 	getSize     int64
 	getErr      error
+	getByHash   map[string]*vGetAns // when non-nil: answers per hash (absent = not found)
 	validated   *pb.ActionResult
 	validatedRaw []byte
 }
@@ -114,8 +115,21 @@ func (c *vCache) stored(kind cache.EntryKind, hash string) bool {
 	return false
 }
 
+type vGetAns struct {
+	rc   io.ReadCloser
+	size int64
+	err  error
+}
+
 func (c *vCache) Get(ctx context.Context, kind cache.EntryKind, hash string, size int64, offset int64) (io.ReadCloser, int64, error) {
 	c.gets++
+	if c.getByHash != nil {
+		a := c.getByHash[hash]
+		if a == nil {
+			return nil, -1, nil
+		}
+		return a.rc, a.size, a.err
+	}
 	return c.getRC, c.getSize, c.getErr
 }
 
